@@ -37,6 +37,8 @@ FORMATS = {
     "odd32": (32, 24, 0, 1, 255, 255, 255, 17, 9, 1),          # odd shifts, does not fit 3 bytes either way
     "odd32be": (32, 21, 1, 1, 127, 127, 127, 15, 8, 1),
     "low32": (32, 12, 0, 1, 15, 15, 15, 8, 4, 0),
+    "r7g8b8": (32, 23, 0, 1, 127, 255, 255, 16, 8, 0),        # only the red maximum differs from the 8-8-8 server format
+    "r8g8b7": (32, 23, 1, 1, 255, 255, 127, 0, 8, 16),
     "rgb565le": (16, 16, 0, 1, 31, 63, 31, 11, 5, 0),
     "rgb565be": (16, 16, 1, 1, 31, 63, 31, 11, 5, 0),
     "rgb555le": (16, 15, 0, 1, 31, 31, 31, 10, 5, 0),
@@ -287,6 +289,16 @@ def tiny_scripts(rng):
     # Tight without any compress-level pseudo-encoding (library default), both Tight flavours on 32 bpp depth 24
     script(4, "rgb888le", "enc %d" % ENC["tight"], k, "tight")
     script(4, "rgb888be", "enc %d -256" % ENC["tight"], k + 1, "tight")
+    # a client that never sends SetEncodings, or only pseudo-encodings: preferredEncoding stays -1 -> Raw
+    for sb in (1, 2, 4):
+        script(sb, fmts[(k + sb) % len(fmts)], "# no SetEncodings at all", k, "raw")
+        script(sb, fmts[(k + sb + 1) % len(fmts)], "enc %d %d" % (LASTRECT, -256 + 3), k + 1, "raw")
+        k += 2
+    # Tight analysis paths: formats that share bits-per-pixel with the server but not all channel maxima
+    for fmtn in ("r7g8b8", "r8g8b7"):
+        for lvl in (0, 1):
+            script(4, fmtn, "enc %d %d" % (ENC["tight"], -256 + lvl), k, "tight")
+            k += 1
     for encname in ("raw", "rre", "corre", "hextile", "ultra"):
         for sb in (1, 2, 4):
             script(sb, fmts[(k + sb) % len(fmts)], "enc %d" % ENC[encname], k, encname)
@@ -372,7 +384,7 @@ def stream_scripts(rng):
 
 
 # ------------------------------------------------------------------ running one script
-def run_proc(exe, script, timeout=600):
+def run_proc(exe, script, timeout=300):
     """run a line-protocol program (harness or Lean driver) on a script -> (rc, stdout lines, stderr tail).
     Same discipline as Ctx.run_lines (the workers of this module run in separate processes and have no
     ctx): a run that exceeds its limit is repeated ALONE (build.Lock("confirm-hang"): one confirmation at a
@@ -388,6 +400,14 @@ def run_proc(exe, script, timeout=600):
                            timeout=limit, env=e, errors="replace")
         return r.returncode, r.stdout.splitlines(), r.stderr[-3000:]
 
+    # after two confirmed hangs in this check run the limit for the remaining runs drops to 20 s (60 s alone),
+    # so that code which blocks costs minutes, not hours (a SPINNING harness is ended by its own CPU limit)
+    marker = os.path.join(build.CACHE, "c01-hangs-%d" % os.getppid())
+    try:
+        if os.path.exists(marker) and len(open(marker).read()) >= 2:
+            timeout = min(timeout, 20)
+    except OSError:
+        pass
     try:
         return once(timeout)
     except subprocess.TimeoutExpired:
@@ -397,6 +417,11 @@ def run_proc(exe, script, timeout=600):
             return once(3 * timeout)
     except subprocess.TimeoutExpired as ex:
         so = ex.stdout.decode(errors="replace") if isinstance(ex.stdout, bytes) else (ex.stdout or "")
+        try:
+            with open(marker, "a") as fh:
+                fh.write("x")
+        except OSError:
+            pass
         return 124, so.splitlines(), "TIMEOUT after %ss (confirmed alone with %ss)" % (timeout, 3 * timeout)
 
 
@@ -517,7 +542,13 @@ def process(args):
     rc, out, err = run_proc(hexe, run_script)
     if rc != 0:
         fid = "tightpng-afterencbuf-overflow" if ("pngWriteData" in err and "overflow" in err) else None
-        fail("crash", "harness exit %d" % rc, err, impl=[l[:200] for l in out[-10:]], finding=fid)
+        what = "harness exit %d" % rc
+        if rc == -24:
+            what = "the server spins: harness killed by its CPU-time limit (SIGXCPU) while serving " + \
+                   (out and "the op after %d completed ops" % sum(1 for l in out if l == ".") or "the script")
+        elif rc == 124:
+            what = "the server blocks: harness did not finish (" + err + ")"
+        fail("crash", what, err, impl=[l[:200] for l in out[-10:]], finding=fid)
         return res
     ops, ok = split_ops(run_script, out)
     if not ok:
@@ -870,6 +901,11 @@ def merge(dst, src):
 
 
 def run(ctx):
+    from .. import build as _b
+    try:
+        os.remove(os.path.join(_b.CACHE, "c01-hangs-%d" % os.getpid()))
+    except OSError:
+        pass
     h = ctx.harness("c01")
     # minilzo reads unaligned 32-bit words by design (UBSan "misaligned load" inside lzo1x_1_compress,
     # third-party code, harmless on x86): scripts that reach the Ultra encoder use a build without
